@@ -5,8 +5,8 @@ import sqlparse
 
 RULE = ('grammar statements (SELECT/INSERT/UPDATE/DELETE/CREATE [OR REPLACE]/WITH … SELECT|INSERT|UPDATE|DELETE, non-DML openers) x prefix of whitespace/comments x letter casing and inner whitespace of the leading keyword '
         'x continuation; non-trivial = distinct statement text')
-ASSUMPTIONS = ['that the leading keyword survives grouping as a top-level child is sampled here and by S-TREE/S-ACC']
-PARTIAL = ['leading_kw_survives (after group) and the CTE clause are sampled, not proved', 'a keyword written directly before ( or . lexes as a Name (KF-C18-1)']
+ASSUMPTIONS = ['grouping and accessor models tied by S-ACC/S-TREE; the hypothesis LeadHyp of leading_kw_survives is evaluated by the Lean driver on every generated statement (stream DOMAIN(leadhyp)) and its prediction compared with the real get_type()']
+PARTIAL = ['leading keyword survives grouping + get_type() after grouping are theorems under the decidable LeadHyp; the CTE clause (WITH … <DML>) is sampled, not proved', 'a keyword written directly before ( or . lexes as a Name (KF-C18-1)']
 PREFIX = ['', ' ', '\n\t', '/* c */ ', '-- c\n', '/* a */\n-- b\n  ', '--+ hint\n', '  /*x*//*y*/']
 
 
@@ -64,8 +64,39 @@ def run(ctx):
         oracle(ctx, c['input'], c['required'])
     if ctx.model.available and hasattr(streams, 's_acc'):
         streams.s_acc(ctx, texts[: ctx.n(400, 6000)])
+        domain_leadhyp(ctx, texts)
     else:
         ctx.notes.append('model driver unavailable: correspondence streams skipped')
+
+
+def domain_leadhyp(ctx, texts):
+    """DOMAIN(leadhyp): where the Lean hypothesis holds, the theorem's prediction must be what the real code returns (a disagreement is a
+    broken tie: the model of lexer/splitter/grouping/get_type differs from the code); how often it holds is reported"""
+    outs = ctx.model.ask(['leadhyp ' + hexs(t) for t in texts])
+    holds = 0
+    for t, mo in zip(texts, outs):
+        ctx.stream('DOMAIN(leadhyp)', inputs=1, lines=1)
+        ws = mo.split()
+        if ws[:1] != ['ok']:
+            ctx.mismatch('DOMAIN(leadhyp)', t, mo, 'ok …')
+            continue
+        try:
+            stmts = sqlparse.parse(t)
+        except Exception:
+            continue
+        if len(ws) - 1 != len(stmts):
+            ctx.mismatch('DOMAIN(leadhyp)', t, mo, '%d statements' % len(stmts))
+            continue
+        for w, st in zip(ws[1:], stmts):
+            flag, pred = w.split(':')
+            if flag == '1':
+                holds += 1
+                want = '' if pred == '-' else ''.join(chr(int(x, 16)) for x in pred.split(','))
+                got = st.get_type()
+                if got != want:
+                    ctx.mismatch('DOMAIN(leadhyp)', t, 'LeadHyp holds, predicted ' + want, got)
+    ctx.dist['leadhyp_holds'] = holds
+    ctx.dist['leadhyp_statements'] = sum(len(o.split()) - 1 for o in outs if o.startswith('ok'))
 
 
 def replay_known(ctx, k):
